@@ -29,6 +29,24 @@ KNOWN_BAD = {
     "comment_with_quote": "#1=POINT('a',/* ' */1.,2.,$);\n#2=POINT('b',1.,2.,3);\n",
     "comment_in_aggregate": "#4=POLY((#1,/* c */#1),(1.,2.,3.),('a','b'),(1,2),((1,2),(3)),(.RED.),$,(LABEL('x')),(),(.T.),());\n#1=POINT('a',1.,2.,$);\n",
     "comment_in_complex": "#1=(BASE(1)/* c */EXTRA(.RED.)LEFTY('l'));\n#2=POINT('b',1.,2.,3);\n",
+    # values that coincide with the library's "unset" sentinels
+    "integer_long_max_reads_as_unset": "#1=POINT('a',1.,2.,9223372036854775807);\n#2=POLY((#1),(1.,2.,3.),('a'),(9223372036854775807,2),((1)),(.RED.),$,(LABEL('x')),(),(.T.),());\n",
+    "real_flt_min_reads_as_unset": "#1=POINT('a',1.1754943508222875E-38,2.,3);\n",
+    # instance names are digit strings of any length; the reader keeps them in an int
+    "instance_id_beyond_int": "#3000000000=ITEM('x');\n#2=POINT('b',1.,2.,3);\n",
+    # ARRAY OF OPTIONAL: an unset element is written as a dollar sign
+    "array_of_optional_dollar": "#1=OPTS($,$,$,$,$,$,$,$,(1,$,3),$);\n",
+    # a select one of whose members is a renamed select
+    "renamed_select_member": "#1=OPTS($,$,$,$,$,$,$,$,$,COUNT_MEASURE(7));\n",
+}
+# the same file without the construct the finding is about: it must read and write back, otherwise the file (a stale copy of
+# an older schema, say) and not the reader is at fault.  Files not listed here get their comments stripped instead.
+KNOWN_CONTROL = {
+    "integer_long_max_reads_as_unset": "#1=POINT('a',1.,2.,9223372036854775806);\n#2=POLY((#1),(1.,2.,3.),('a'),(9223372036854775806,2),((1)),(.RED.),$,(LABEL('x')),(),(.T.),());\n",
+    "real_flt_min_reads_as_unset": "#1=POINT('a',1.25E-38,2.,3);\n",
+    "instance_id_beyond_int": "#300000000=ITEM('x');\n#2=POINT('b',1.,2.,3);\n",
+    "array_of_optional_dollar": "#1=OPTS($,$,$,$,$,$,$,$,(1,2,3),$);\n",
+    "renamed_select_member": "#1=OPTS($,$,$,$,$,$,$,$,$,COLOR(.RED.));\n",
 }
 
 
@@ -229,9 +247,10 @@ def main(tier, seed):
     for sig, data in known:
         evals += 1
         # the same file without its comments must read and write back: otherwise the file, not the reader, is at fault
-        ctl = judge(hfile, wdir, re.sub(rb"/\*.*?\*/", b"", data, flags=re.S), None)
+        ctl_data = (HDR + KNOWN_CONTROL[sig] + END).encode() if sig in KNOWN_CONTROL else re.sub(rb"/\*.*?\*/", b"", data, flags=re.S)
+        ctl = judge(hfile, wdir, ctl_data, None)
         if ctl:
-            res.violation("GENERATOR BUG: the file kept for the open finding %s fails without its comments too: %s" % (sig, ctl), {}, found_input=False)
+            res.violation("GENERATOR BUG: the control of the file kept for the open finding %s (the same file without the construct in question) fails too: %s" % (sig, ctl), {}, found_input=False)
             continue
         msg = judge(hfile, wdir, data, None)
         if msg:
